@@ -679,10 +679,38 @@ WitLo = z3.Function('wit_lo', z3.IntSort(), z3.IntSort())
 WitHi = z3.Function('wit_hi', z3.IntSort(), z3.IntSort())
 
 
-def _between_members(base_k, k, g, cid_k):
+def _between_members(base_k, k, g, cid_k, lo=None, hi=None):
+    lo = WitLo if lo is None else lo
+    hi = WitHi if hi is None else hi
     n, ids, h = g['n'], g['ids'], g['h']
-    return And(WitLo(k) >= 0, WitLo(k) < n, ids[WitLo(k)] == cid_k, h[WitLo(k)] <= base_k,
-               WitHi(k) >= 0, WitHi(k) < n, ids[WitHi(k)] == cid_k, base_k <= h[WitHi(k)])
+    return And(lo(k) >= 0, lo(k) < n, ids[lo(k)] == cid_k, h[lo(k)] <= base_k,
+               hi(k) >= 0, hi(k) < n, ids[hi(k)] == cid_k, base_k <= h[hi(k)])
+
+
+import itertools as _itw
+_witno = _itw.count()
+
+
+def _base_ensures_full(result, self, which, pdf, cluster_ids):
+    ctx = smt.CURRENT_CTX
+    out = {
+        # a base lies between two member hits: finite and inside the range of the hit heights
+        'finite_in_range': Forall(0, result.n, lambda i: cell(result.col('height_base'), i, lambda v: And(Not(_isnan(v)), _rv(v) >= 0, _rv(v) < 100000))),
+        'same_table': result is pdf}
+    if ctx.modular_site is None:
+        # own proof: the ghost functions BaseOfSet / WitLo / WitHi are assigned row by row in the loop
+        out['every_row_gets_its_base'] = Forall(0, result.n, lambda k: cell(result.col('height_base'), k, lambda v: And(Not(_isnan(v)), _rv(v) == BaseOfSet(k))))
+        lo = hi = None
+    else:
+        # at a call site: the witnesses of *this* call (a second call on another table must not speak about the same symbols)
+        j = next(_witno)
+        lo = z3.Function(f'wit_lo@{j}', z3.IntSort(), z3.IntSort())
+        hi = z3.Function(f'wit_hi@{j}', z3.IntSort(), z3.IntSort())
+        ctx.ghost.setdefault('base_wits', []).append((lo, hi))
+    # C04: each base lies between two member hits of its own set
+    out['between_two_members'] = Forall(0, result.n, lambda k: cell(result.col('height_base'), k, lambda v: _between_members(
+        _rv(v), k, ctx.ghost['hits'], cluster_ids[k], lo, hi)))
+    return out
 
 
 def _hit_table(ctx, idcol, facts=True):
@@ -793,7 +821,7 @@ def _slb_inv(E, i):
     g = smt.CURRENT_CTX.ghost['hits']
     return {'bases': Forall(0, i, lambda k: cell(base, k, lambda v: And(Not(_isnan(v)), _rv(v) == BaseOfSet(k), _rv(v) >= 0, _rv(v) < 100000))),
             'between_two_members': Forall(0, i, lambda k: cell(base, k, lambda v: _between_members(_rv(v), k, g, E.cluster_ids[k]))),
-            'rows': T.n == E.self.ghost['N']}
+            'rows': T.n == E.cluster_ids.len}
 
 
 def _slb_body(E, i):
@@ -891,16 +919,9 @@ def register_base_selection(reg):
         requires=lambda self, which, pdf, cluster_ids: {
             # ids handed in are the ids of existing sets (>= 0), each with at least one member hit (TI / _get_cluster_ids)
             'ids_are_sets': Forall(0, cluster_ids.len, lambda k: cluster_ids[k] >= 0),
-            'rows': cluster_ids.len == self.ghost['N']},
+            'rows': cluster_ids.len == pdf.n},
         result=old.result if old is not None else None,
-        ensures=lambda result, self, which, pdf, cluster_ids: {
-            'every_row_gets_its_base': Forall(0, result.n, lambda k: cell(result.col('height_base'), k, lambda v: And(Not(_isnan(v)), _rv(v) == BaseOfSet(k)))),
-            # a base lies between two member hits: finite and inside the range of the hit heights
-            'finite_in_range': Forall(0, result.n, lambda i: cell(result.col('height_base'), i, lambda v: And(Not(_isnan(v)), _rv(v) >= 0, _rv(v) < 100000))),
-            # C04: each base lies between two member hits of its own set
-            'between_two_members': Forall(0, result.n, lambda k: cell(result.col('height_base'), k, lambda v: _between_members(
-                _rv(v), k, smt.CURRENT_CTX.ghost['hits'], cluster_ids[k]))),
-            'same_table': result is pdf},
+        ensures=_base_ensures_full,
         loops={0: {'invariant': _slb_inv, 'modifies': ['pdf', 'ind', 'cid', 'in_sligrolay', 'in_sligrolay_filtered'],
                    'modifies_cols': {'pdf': ['height_base']},
                    'col_models': {'height_base': lambda n: fresh_column(n, 'height_base', 'float', 'npfloat', with_defd=True)},
@@ -921,7 +942,7 @@ def _fluff_result(name, ctx, pts, kwargs):
     return (f, Opaque('LOWESS-smoothed points'))
 
 
-def _info_facts(T, k, g, cids):
+def _info_facts(T, k, g, cids, wits=None):
     """what holds for row k of the table once its statistics are filled in (dict of named facts)"""
     mn, mx, me, sd, th, fl = (T.col(c) for c in ('height_min', 'height_max', 'height_mean', 'height_std', 'thickness', 'fluffiness'))
     n, ids, h = g['n'], g['ids'], g['h']
@@ -934,7 +955,10 @@ def _info_facts(T, k, g, cids):
             'fluffiness_finite_non_negative': cell(fl, k, lambda v: And(Not(_isnan(v)), _rv(v) >= 0)),
             'mean_between_min_and_max': And(_rv(mn[k]) <= _rv(me[k]), _rv(me[k]) <= _rv(mx[k])),
             'min_max_in_range': And(_rv(mn[k]) >= 0, _rv(mx[k]) < 100000),
-            'every_member_between_min_and_max': And(inside(WitLo), inside(WitHi))}
+            # (proved for the unconstrained WitLo / WitHi, i.e. for every hit; at a call site it is stated for the witnesses that
+            #  earlier calls of the base routine on this path have introduced)
+            'every_member_between_min_and_max': And(inside(WitLo), inside(WitHi)) if wits is None else
+            And(*[And(inside(lo_), inside(hi_)) for lo_, hi_ in wits])}
 
 
 INFO_FACTS = ('min_max_mean_finite', 'std_nan_or_non_negative', 'thickness_is_max_minus_min', 'fluffiness_finite_non_negative',
@@ -942,7 +966,10 @@ INFO_FACTS = ('min_max_mean_finite', 'std_nan_or_non_negative', 'thickness_is_ma
 
 
 def _info_all(T, hi, g, cids):
-    return {f: Forall(0, hi, lambda k, f=f: _info_facts(T, k, g, cids).get(f, z3.BoolVal(False))) for f in INFO_FACTS}
+    # (decided now, not when the schema is instantiated: at a call site the clause speaks about the witnesses of the earlier
+    #  base-routine calls on this path)
+    wits = None if smt.CURRENT_CTX.modular_site is None else list(smt.CURRENT_CTX.ghost.get('base_wits', []))
+    return {f: Forall(0, hi, lambda k, f=f: _info_facts(T, k, g, cids, wits).get(f, z3.BoolVal(False))) for f in INFO_FACTS}
 
 
 def _info_inv(E, i):
